@@ -132,7 +132,15 @@ def run_unit(name, twin=False, seed=0, rlimit=None, extra_args=()):
                 txt = (s.get("text") or [{}])[0].get("text", "").strip()
                 locus_src = {"file": meta[1], "line": meta[2], "text": txt}
                 break
-        rec = {"unit": name, "message": msg, "kind": kind, "fn": fn["id"] if fn else None,
+        lemma = None
+        if fn is None:
+            for sp in prim + spans:
+                l = sp.get("line_start", 0)
+                for lm in getattr(unit, "lemmas", ()):
+                    if lm["first"] <= l <= lm["last"]:
+                        lemma = lm["name"]; break
+                if lemma: break
+        rec = {"unit": name, "message": msg, "kind": kind, "fn": fn["id"] if fn else None, "lemma": lemma,
                "clause": {"fn": clause[1], "kind": clause[2], "label": clause[3]} if clause else None,
                "src": locus_src, "rendered": dgn.get("rendered", "")}
         is_undecided = kind is None or kind == "compile" or any(u.lower() in msg.lower() for u in UNDECIDED_PAT)
